@@ -176,7 +176,10 @@ EMPTY = ("cat", ())
 
 # ----------------------------------------------------------------------------- polynomials over index symbols
 def psubs(p, name, val):
-    """substitute symbol `name` by polynomial val, also inside bracketed extent symbols such as n[v1]"""
+    """substitute symbol `name` by polynomial val - also inside bracketed extent symbols such as n[v1] and inside the atoms
+    (opaque sub-polynomials under a negative / fractional exponent) of sa/poly.py"""
+    from .poly import ATOMS, atom, P_pow
+    from fractions import Fraction as Fr
     pat = re.compile(r"\b" + re.escape(name) + r"\b")
     out = P()
     for mono, coef in p.t.items():
@@ -184,18 +187,29 @@ def psubs(p, name, val):
         for s, e in mono:
             if s == name:
                 base = val
-            elif pat.search(s):
+            elif not pat.search(s):
+                base = None
+            elif s in ATOMS:
+                base = P.s(atom(psubs(ATOMS[s], name, val)))
+                inner = psubs(ATOMS[s], name, val)
+                if len(inner.t) <= 1:
+                    base = inner            # a monomial needs no atom
+            else:
                 parts = sym_parts(s)
                 if parts is not None:
                     base = P.s(parts[0] + "".join(f"[{psubs(parse_poly(x), name, val)!r}]" for x in parts[1]))
                 else:
                     base = P.s(pat.sub("(" + repr(val) + ")", s))
+            if base is None:
+                term = term * P({((s, e),): Fr(1)})
+            elif e == int(e) and e >= 0:
+                for _ in range(int(e)):
+                    term = term * base
             else:
-                base = P.s(s)
-            if e != int(e) or e < 0:
-                return P.s(pat.sub("(" + repr(val) + ")", repr(p)))
-            for _ in range(int(e)):
-                term = term * base
+                pw = P_pow(base, e)
+                if pw is None:
+                    return P.s(pat.sub("(" + repr(val) + ")", repr(p)))
+                term = term * pw
         out = out + term
     return out
 
@@ -743,6 +757,11 @@ class Interp:
             if any(p is None for p in ps):
                 return None
             lo, hi, st = (P.c(0), ps[0], P.c(1)) if len(ps) == 1 else (ps[0], ps[1], P.c(1)) if len(ps) == 2 else ps
+            if st == P.c(-1):
+                # descending range: position v = 0 .. lo-hi-1, value lo - v
+                v = self.fresh("v")
+                bind(target, I(lo - P.s(v)))
+                return ("for", v, P.c(0), lo - hi, binds)
             if st != P.c(1):
                 return None
             v = self.fresh("v")
@@ -1001,6 +1020,11 @@ class Interp:
                 return isinstance(test.ops[0], ast.IsNot)
             if isinstance(v, K):
                 return (v.v is None) == isinstance(test.ops[0], ast.Is)
+        if isinstance(test, ast.Compare) and len(test.ops) == 1 and isinstance(test.ops[0], (ast.Is, ast.IsNot)) and isinstance(test.comparators[0], ast.Constant) \
+                and isinstance(test.comparators[0].value, bool):
+            v = self.ev(test.left, env)
+            if isinstance(v, K):
+                return (v.v is test.comparators[0].value) == isinstance(test.ops[0], ast.Is)
         return None
 
     # -- expressions
@@ -1195,6 +1219,23 @@ class Interp:
             return r
         if isinstance(a, I) and isinstance(b, I) and isinstance(op, (ast.Add, ast.Sub, ast.Mult)):
             return I(a.p + b.p if isinstance(op, ast.Add) else a.p - b.p if isinstance(op, ast.Sub) else a.p * b.p)
+        if isinstance(op, (ast.Div, ast.Pow, ast.FloorDiv)):
+            pa, pb = self.topoly(a), self.topoly(b)
+            if isinstance(b, K) and isinstance(b.v, float):
+                from fractions import Fraction
+                pb = P.c(Fraction(b.v).limit_denominator(64))
+            if pa is not None and pb is not None:
+                from .poly import P_div, P_pow
+                r_ = None
+                if isinstance(op, ast.Div):
+                    r_ = P_div(pa, pb)
+                elif isinstance(op, ast.Pow) and pb.is_const():
+                    r_ = P_pow(pa, pb.const())
+                elif isinstance(op, ast.FloorDiv):
+                    q_ = P_div(pa, pb)
+                    r_ = q_ if q_ is not None and pb.is_const() and all(c.denominator == 1 for c in q_.t.values()) else P.s(f"floor({q_!r})") if q_ is not None else None
+                if r_ is not None:
+                    return I(r_)
         if isinstance(op, ast.Add) and isinstance(a, Sq) and isinstance(b, Sq) and self.listlike(a) and self.listlike(b):
             return Sq(cat(a.t, b.t))
         if isinstance(op, ast.MatMult):
@@ -1358,11 +1399,13 @@ class Interp:
 
     def seq_index(self, base, idx):
         t = normalise(base.t)
-        if len(idx) == 1 and isinstance(idx[0], (I, K, E)) and t[0] == "for" and t[2] == P.c(0) and t[4][0] in ("row", "int", "fmt", "ex", "blk", "dct", "obj"):
+        rest_full = all(isinstance(x, tuple) and (x[0] == "ellipsis" or (x[0] == "slice" and x[1] is None and x[2] is None)) for x in idx[1:])
+        if len(idx) >= 1 and rest_full and isinstance(idx[0], (I, K, E)) and t[0] == "for" and t[2] == P.c(0) and t[4][0] in ("row", "int", "fmt", "ex", "blk", "dct", "obj"):
             p = self.topoly(idx[0])
             if p is not None:
                 if p.is_const() and p.const() < 0:
                     p = t[3] + p
+                self.sh.setdefault("index_log", []).append((p, t[3], list(self.loops)))     # (index, length of the indexed sequence, enclosing loops)
                 return self.elem_val(tsubs(t[4], t[1], p))
         if len(idx) >= 1 and isinstance(idx[0], (I, K)):
             p = self.topoly(idx[0])
